@@ -20,6 +20,9 @@ CFG = {
         # hydrated-then-rebuilt = client-built-then-rebuilt, comments aside (all pairs of one view type over the structural grammar,
         # static string attributes, no child-less non-void element in A)
         "Leptos.Hydrate.C05_then_like_csr",
+        # the same with String / Option<String> / bool attribute values (distinct names) changing freely between A and B;
+        # attribute lists compared as maps (C03's relation AttrsEq for this fragment)
+        "Leptos.Hydrate.C05_then_like_csr_kv",
         # regression witnesses of the repaired defects F-C05-1 / F-C05-3 (kernel-evaluated: old code fails, current code passes)
         "Leptos.Hydrate.C05_empty_text_witness",
         "Leptos.Hydrate.C05_empty_text_witness_mid",
@@ -68,6 +71,15 @@ CFG = {
         "Leptos.Hydrate.nodupAttrs_dom",
         "Leptos.Hydrate.hydrated_side",
         "Leptos.Hydrate.csr_side",
+        "Leptos.Hydrate.hydrated_side_gen",
+        "Leptos.Hydrate.csr_side_gen",
+        "Leptos.Hydrate.then_like_csr_kv",
+        "Leptos.Hydrate.fragStatic",
+        "Leptos.Hydrate.fragKV",
+        "Leptos.Hydrate.rebuildAttrs_erase",
+        "Leptos.Hydrate.buildAttrs_erase",
+        "Leptos.Hydrate.Rep.mono",
+        "Leptos.Hydrate.sim_stripL",
         "Leptos.Hydrate.erase_rebuild",
         "Leptos.Hydrate.erase_build",
         "Leptos.Hydrate.erase_replaceState",
@@ -157,8 +169,10 @@ CFG = {
         "C05_hydrate_succeeds quantifies over every DOM that holds domOf v (predicate Realises); C05_load_realises proves that the loader of the "
         "harness (one node per parsed node, in document order) produces such a DOM; the driver re-evaluates both on every case (model self-check)",
         "C05_then_like_csr is proved for static string attributes with distinct names (the attribute fragment for which C03 proves rebuild: "
-        "it rests on C03's rebuild_spec / build_mount_spec) and for A without child-less non-void elements; with Option<String> / bool attributes "
-        "and child-less elements the statement (C05_then_like_csr_stmt) stays OPEN and is evaluated on every generated pair by the model and by the real code",
+        "it rests on C03's rebuild_spec / build_mount_spec) and for A without child-less non-void elements; C05_then_like_csr_kv proves the same for "
+        "String / Option<String> / bool attribute values with distinct names, attribute lists compared as maps (C03's AttrsEq: a removed and re-set attribute is appended, "
+        "so list order is not an invariant); for child-less non-void elements in A the statement (C05_then_like_csr_stmt) stays OPEN and is evaluated on every generated pair "
+        "by the model and by the real code (where attribute lists are compared exactly)",
         "the repaired hydrate writes during the walk; the model performs the walk first and the writes afterwards (settle), justified by "
         "C05_walk_commutes_with_writes; that the DOM after settle serialises to domA is evaluated by the driver on every case",
         "not built by the harness (stated, correspondence does not cover them): Doctype (outside the HTML parser subset), Static<..> (nightly only), "
@@ -182,7 +196,7 @@ CFG = {
                 "kernel-evaluated regression witnesses. Five defects found by this property were repaired in "
                 "/repo (F-C05-1, -3, -4, -5 and the position handling of keyed lists); C05_then_like_csr: after hydration a rebuild with any "
                 "value of the same type shows, comments aside, exactly what the client-built twin shows (all structural combinators incl. branch "
-                "switches, Vec grow/shrink and AnyView type changes; static string attributes) — proved by showing that erasing the inert "
+                "switches, Vec grow/shrink and AnyView type changes; static string attributes exactly, String / Option<String> / bool attribute values compared as maps) — proved by showing that erasing the inert "
                 "<!> separators commutes with every DOM primitive and with rebuild, that the erased hydrated world is a mounted representation "
                 "in the sense of C03, and by C03's rebuild theorem on both sides. Raw-text elements keep no child state (F-C05-2, known finding). Tied to the code by a byte-for-byte differential run: real to_html (+ both stream "
                 "forms) -> independent Rust HTML parser -> native DOM -> real hydrate::<true> (outcome / error kind, nodes created) -> real "
